@@ -58,13 +58,15 @@ def _rand_tree(rng, leaves, depth):
 
 def run(ctx):
     big = not ctx.quick()
-    g = ctx.dump_graph("RBACMC", "RBACMCBig.cfg" if big else "RBACMC.cfg", workers=8, timeout=3000)
+    g = ctx.dump_graph("RBACMC", "RBACMCBig.cfg" if big else "RBACMC.cfg", workers=4, timeout=3000)
     ctx.neg("RBACMC", "RBACNeg.cfg", expect="I_Authz", workers=2)
     ctx.neg("RBACMC", "RBACNeg2.cfg", expect="I_Chain", workers=2)
 
     by = {}
     for nid in sorted(g.nodes):
         st = parse_tla_state(g.nodes[nid], only={"kind", "x"})
+        if st["kind"] == "seed":
+            continue
         by.setdefault(st["kind"], []).append(st["x"])
     for k in by:
         by[k].sort(key=lambda v: json.dumps(v, sort_keys=True))
@@ -75,7 +77,7 @@ def run(ctx):
     ctx.log("inputs from TLC: " + ", ".join("%s=%d" % (k, len(by[k])) for k in need))
 
     rng = ctx.rng
-    K = ctx.pick(12, 10 ** 9)
+    K = ctx.pick(8, 40)
 
     def pick_reqs(n):
         idx = list(range(n))
@@ -113,6 +115,9 @@ def run(ctx):
         main.append({"kind": "chain", "engines": x, "ri": pick_reqs(len(reqs))})
     for x in by["rule"] + by["authz"]:
         (dup if _has_dup(x) else main).append({"kind": "authz", "policy": x, "ri": pick_reqs(len(reqs))})
+    ndup = ctx.pick(150, 10 ** 9)      # quick tier: a seeded sample of the repeated-name policies
+    if len(dup) - 1 > ndup:
+        dup = dup[:1] + [dup[1 + i] for i in sorted(rng.sample(range(len(dup) - 1), ndup))]
 
     # seeded deeper random inputs over the TLC-exported vocabulary
     nr = ctx.pick(150, 3000)
